@@ -14,7 +14,7 @@ cd $WT
 cargo build -q -p bindgen-cli --offline 2>/dev/null
 cp $WT/target/debug/bindgen $WT/bindgen-unchanged
 ( cd $OUT && timeout 600 bash ./demo.sh $WT/bindgen-unchanged > $OUT/demo-unchanged.log 2>&1 ); RC0=$?
-git apply $OUT/patch.diff; AP=$?
+(git apply $OUT/patch.diff || git apply -3 $OUT/patch.diff || patch -p1 -F3 -s < $OUT/patch.diff); AP=$?
 cargo build -q -p bindgen-cli --offline 2> $OUT/build-changed.log; B=$?
 ( cd $OUT && timeout 600 bash ./demo.sh $WT/target/debug/bindgen > $OUT/demo-changed.log 2>&1 ); RC1=$?
 timeout 1500 cargo nextest run --workspace --no-fail-fast --test-threads 4 --offline > $OUT/suite.log 2>&1
